@@ -105,14 +105,19 @@ def struct_program(rnd, g):
     kinds = {}
     for v in range(n):
         if v in targets:
-            kinds[v] = rnd.choice(["scalar", "scalar", "virtual"])
+            # a parameterised-struct field is depended upon through its member q (an integer)
+            kinds[v] = rnd.choice(["scalar", "scalar", "virtual", "param-struct"])
         else:
             kinds[v] = rnd.choice(["scalar", "virtual", "array", "param-struct"])
     lines = ["struct Pp(n: UInt:8):", "  0 [+1]  UInt  q", "struct Foo:"]
     where = {}
     pos = 0
+
+    def ref(w):
+        return names[w] + (".q" if kinds[w] == "param-struct" else "")
+
     for v in range(n):
-        deps = [names[w] for w in sorted(g[v])]
+        deps = [ref(w) for w in sorted(g[v])]
         k = kinds[v]
         pos += 2
         if k == "virtual":
@@ -152,6 +157,12 @@ def struct_program(rnd, g):
         else:
             lines.append("  %d [+1]  Pp(%s)  %s" % (pos, sum_expr(deps, 1), names[v]))
             where[v] = "type-argument"
+    # fields that read the structure's own generated fields (not graph nodes: nothing depends on them)
+    if rnd.random() < 0.35:
+        gen = rnd.choice(["$size_in_bytes", "$max_size_in_bytes", "$min_size_in_bytes"])
+        spots = [i for i in range(3, len(lines) + 1) if not lines[i - 1].startswith("  if ")]
+        lines.insert(rnd.choice(spots) if rnd.random() < 0.5 else len(lines), "  let total = %s + 2" % gen)
+        kinds["total"] = gen
     return "\n".join(lines) + "\n", names, kinds, where
 
 
